@@ -25,6 +25,9 @@ package varutil
 //@   loop 1 step ch == '\n' ==> len(args) == prev(len(args)) && forall(k, 0 <= k && k < len(args) ==> args[k] == prev(args[k]))
 // -- and it does not end the word it stands in: the continuation glues what follows to what came before
 //@   loop 1 step ch == '\n' ==> isSeparated == prev(isSeparated)
+// -- a word ends at a blank and at nothing else: the only blanks are space and tab (no other byte -
+// -- CR, NBSP's second byte, ... - separates arguments or is dropped)
+//@   loop 1 step isSeparated && !prev(isSeparated) ==> ch == ' ' || ch == '\t'
 // -- every byte appended to the current argument is exactly the byte read
 //@   at_store current requires $new == cat($old, sbyte(ch))
 // -- quoted run
